@@ -663,6 +663,7 @@ def _o3_obligations(label, sym: Site, val: Validity, tau, optional, paths, path_
     # keys introduced so far come from (a) the hook's probes (b) validity formulas. Recompute (b) by scanning a fresh Validity.
     shadow = Site()
     shadow.touched = set(sym.touched)
+    shadow.witness_arrays = set(sym.witness_arrays)
     sval = Validity(mm, shadow)
     sval.valid(tau, "j", False)
     declared = {p: set(ks) for p, ks in shadow.keys.items()}
@@ -683,24 +684,25 @@ def _o3_obligations(label, sym: Site, val: Validity, tau, optional, paths, path_
     outcomes = []
     for i, p, out, r in path_infos:
         outcomes.append(("raise", out[1]) if out[0] == "raise" else ("ret", describe_reading(r)))
-    n = 0
-    for a in range(len(paths)):
-        for b in range(a + 1, len(paths)):
-            if outcomes[a] == outcomes[b]:
-                continue
-            pc_a = And(*paths[a].pc)
-            pc_b = And(*paths[b].pc)
+    # one obligation per pair of DISTINCT outcomes (paths with the same outcome are merged into a disjunction)
+    groups: Dict[Tuple[str, str], List[int]] = {}
+    for idx, oc in enumerate(outcomes):
+        groups.setdefault(oc, []).append(idx)
+    keys = list(groups)
+    for a in range(len(keys)):
+        for b in range(a + 1, len(keys)):
+            pc_a = Or(*[And(*paths[i].pc) for i in groups[keys[a]]])
+            pc_b = Or(*[And(*paths[i].pc) for i in groups[keys[b]]])
             obs.append(
                 Obligation(
-                    f"{label}:O3:path{a}~path{b}",
+                    f"{label}:O3:{keys[a][1][:60]}~{keys[b][1][:60]}",
                     "O3",
                     [],
                     [pre_loose, pc_a, ("@@PRIME@@", pre_loose), ("@@PRIME@@", pc_b)],
                     "unsat",
-                    {"path": a, "other": b, "impl": f"{outcomes[a]} vs {outcomes[b]}", "undeclared": undeclared_symbol},
+                    {"path": groups[keys[a]][0], "other": groups[keys[b]][0], "impl": f"{keys[a]} vs {keys[b]}", "undeclared": undeclared_symbol},
                 )
             )
-            n += 1
     # primes are applied after resolution (strict slots do not occur in loose formulas, but has-sets must be final)
     for o in obs:
         und = o.meta.pop("undeclared")
